@@ -67,12 +67,16 @@ def case_strategy(draw, workloads=WORKLOADS):
     case["edges_a"] = [0.1, 0.4, 0.7, 1.0]
     case["edges_b"] = {"retrees_edges": [0.1, 0.5, 0.8, 1.0], "retrees_count": [0.1, 0.4, 1.0], "overwrite_trees": [0.1, 0.4, 0.7, 1.0]}.get(wl, [0.1, 0.55, 1.0])
     case["closed_a"] = draw(gen.closed_strategy)
+    case["prefix"] = draw(st.sampled_from(["nz_z0.2-1.4", "product", "result.v2", "product"]))  # file-name stems with and without dots
     if wl.startswith("corr"):
         case["product_new"] = draw(gen.corrfunc_case(max_bins=3, max_patches=3)) if wl.startswith("corrfunc") else draw(gen.sampled_case(max_bins=3, max_samples=3))
         if wl.startswith("corrfunc"):
             case["product_old"] = draw(gen.corrfunc_case(max_bins=3, max_patches=3))
         else:
-            case["product_old"] = draw(gen.sampled_case(binning=case["product_new"]["binning"] if draw(st.booleans()) else None, nsamp=len(case["product_new"]["samples"]) if draw(st.booleans()) else None, max_bins=3, max_samples=3))
+            # an older product of the same shape is the dangerous prior state (a mixture of old and
+            # new files stays loadable); other shapes only with probability 1/4
+            same = draw(st.integers(0, 3)) != 0
+            case["product_old"] = draw(gen.sampled_case(binning=case["product_new"]["binning"] if same else None, nsamp=len(case["product_new"]["samples"]) if same else None, max_bins=3, max_samples=3))
     return case
 
 
@@ -204,7 +208,7 @@ def run_case(case):
                 if wl == "corrfunc_over":
                     gen.build_corrfunc(case["product_old"]).to_file(template / "product.hdf5")
                 else:
-                    gen.build_sampled(case["product_old"]).to_files(template / "product")
+                    gen.build_sampled(case["product_old"]).to_files(template / case.get("prefix", "product"))
         except Exception as e:  # noqa
             ck.n_eval = 1
             ck.fail(f"prior-state|{exc_sig(e)}", f"{type(e).__name__}: {e}")
@@ -239,7 +243,7 @@ def run_case(case):
             elif wl.startswith("corrfunc"):
                 gen.build_corrfunc(case["product_new"]).to_file(world / "product.hdf5")
             elif wl.startswith("corrdata"):
-                gen.build_sampled(case["product_new"]).to_files(world / "product")
+                gen.build_sampled(case["product_new"]).to_files(world / case.get("prefix", "product"))
 
         def reset_world():
             shutil.rmtree(world, ignore_errors=True)
@@ -287,7 +291,7 @@ def run_case(case):
                 continue
             if wl.startswith("corrdata"):
                 try:
-                    back = CorrData.from_files(world / "product")
+                    back = CorrData.from_files(world / case.get("prefix", "product"))
                     from props.c11_roundtrip import text_close
 
                     def matches(prod):
@@ -320,4 +324,5 @@ def run_case(case):
 
 def components():
     # one component per workload so that every tier covers every workload
-    return [Component(f"crash_{wl}", case_strategy(workloads=[wl]), run_case, quick=2, thorough=40, shards=8, quick_shards=2) for wl in WORKLOADS]
+    # result-file workloads have few crash points: more instances of them in the quick tier
+    return [Component(f"crash_{wl}", case_strategy(workloads=[wl]), run_case, quick=6 if wl.startswith("corr") else 2, thorough=80 if wl.startswith("corr") else 40, shards=8, quick_shards=3 if wl.startswith("corr") else 2) for wl in WORKLOADS]
